@@ -218,10 +218,18 @@ func TestGenC15(t *testing.T) {
 			wr, rd = c, s
 			closeW = func() { c.Close() }
 		} else {
-			a, b, _, _, err := tcpPair(rr.sub(5))
+			a, b, ab, _, err := tcpPair(rr.sub(5))
 			if err != nil {
 				q.fail("c15:handshake", err.Error())
 				continue
+			}
+			if rr.chance(1, 3) {
+				// the transport hands the reader a few bytes per read (TCP segmentation): no effect on the stream
+				fr := rr.sub(6)
+				ab.mu.Lock()
+				ab.frag = func() int { return 1 + fr.intn(9) }
+				ab.mu.Unlock()
+				q.stat("fragmenting_transport_cases", 1)
 			}
 			wr, rd = a, b
 			closeW = func() { a.Close() }
